@@ -182,6 +182,8 @@ func (c *BConn) Closed() string {
 }
 
 func (c *BConn) Send(p []byte) error {
+	// a gateway that stops reading from its host must not hang the harness
+	c.C.SetWriteDeadline(time.Now().Add(60 * time.Second))
 	_, err := c.C.Write(p)
 	return err
 }
